@@ -80,7 +80,13 @@ class CombinedModel(darsia.Model):
             for pos_model, pos_parameter in dofs:
                 model = self.models[pos_model]
                 model.update_model_parameters(parameters_cache, pos_parameter)
-                parameters_cache = parameters_cache[model.num_parameters :]
+                # Remove the parameters consumed by the model from the cache, i.e.,
+                # all its parameters, or only the addressed ones.
+                if pos_parameter is None or isinstance(pos_parameter, str):
+                    num_consumed = model.num_parameters
+                else:
+                    num_consumed = len(pos_parameter)
+                parameters_cache = parameters_cache[num_consumed:]
 
     def __getitem__(self, pos_model: int) -> darsia.Model:
         """Access single models.
